@@ -501,15 +501,33 @@ pub fn canon_obj(o: &Obj) -> Vec<String> {
     out
 }
 fn trim_pad(s: &str) -> &str { s.trim_end_matches([' ', '\0']) }
-pub fn canon_prim(p: &PrimitiveValue, _vr: VR) -> String {
+/// VRs whose value is ONE string in which a backslash is an ordinary character (PS3.5 6.2: ST, LT, UT, UR);
+/// every other character string VR holds backslash-separated values.
+pub fn single_text_vr(name: &str) -> bool { matches!(name, "ST" | "LT" | "UT" | "UR") }
+/// canonical text value: the multiplicity and every item count; only the padding at the very end of the value field
+/// (trailing SPACE/NUL of the last item) is ignored. A value that is nothing but padding is the empty value.
+fn canon_text(vr: &str, items: &[String]) -> String {
+    if trim_pad(&items.join("\\")).is_empty() { return "T:".into() }
+    if single_text_vr(vr) {
+        // must be one string; anything else is reported with its multiplicity so that it cannot compare equal
+        if items.len() == 1 { format!("S:{:?}", trim_pad(&items[0])) } else { format!("S!{}:{:?}", items.len(), items) }
+    } else {
+        let mut v: Vec<String> = items.to_vec();
+        if let Some(l) = v.last_mut() { *l = trim_pad(l).to_string(); }
+        format!("M{}:{:?}", v.len(), v)
+    }
+}
+pub fn canon_prim(p: &PrimitiveValue, vr: VR) -> String {
     use PrimitiveValue::*;
+    let name: &str = VR::to_string(vr);
     match p {
         Empty => "T:".into(),
-        Str(s) => format!("T:{}", trim_pad(s)),
-        Strs(v) => format!("T:{}", trim_pad(&v.join("\\"))),
-        Date(v) => format!("T:{}", v.iter().map(|d| d.to_encoded()).collect::<Vec<_>>().join("\\")),
-        Time(v) => format!("T:{}", v.iter().map(|d| d.to_encoded()).collect::<Vec<_>>().join("\\")),
-        DateTime(v) => format!("T:{}", v.iter().map(|d| d.to_encoded()).collect::<Vec<_>>().join("\\")),
+        // a single in-memory string has multiplicity 1 whatever it contains
+        Str(s) => canon_text(name, &[s.clone()]),
+        Strs(v) => canon_text(name, &v.to_vec()),
+        Date(v) => canon_text(name, &v.iter().map(|d| d.to_encoded()).collect::<Vec<_>>()),
+        Time(v) => canon_text(name, &v.iter().map(|d| d.to_encoded()).collect::<Vec<_>>()),
+        DateTime(v) => canon_text(name, &v.iter().map(|d| d.to_encoded()).collect::<Vec<_>>()),
         U8(v) => format!("B:{}", hex(v)),
         I16(v) => format!("W16:{:?}", v.iter().map(|x| *x as u16).collect::<Vec<_>>()),
         U16(v) => format!("W16:{:?}", v.to_vec()),
@@ -532,7 +550,9 @@ pub fn canon_expected(elems: &[GElem]) -> Vec<String> {
             GVal::Seq { items, .. } => { out.push(format!("{} SEQ {}", head, items.len())); for it in items { out.push("ITEM".into()); out.extend(canon_expected(&it.elems)); out.push("END".into()); } }
             GVal::Pix { ot, frags } => out.push(format!("{} PIX ot={:?} frags={:?}", head, ot, frags.iter().map(|f| hex(f)).collect::<Vec<_>>())),
             GVal::Empty => out.push(format!("{} T:", head)),
-            GVal::Text(p) => out.push(format!("{} T:{}", head, trim_pad(&p.join("\\")))),
+            // what must come back: for the single-string VRs one string (the parts joined, a backslash is text there),
+            // for every other string VR exactly these items
+            GVal::Text(p) => out.push(format!("{} {}", head, if single_text_vr(name) { canon_text(name, &[p.join("\\")]) } else { canon_text(name, p) })),
             GVal::Bytes(b) => { let mut b = b.clone(); if b.len() % 2 == 1 { b.push(0) } out.push(if b.is_empty() { format!("{} T:", head) } else { format!("{} B:{}", head, hex(&b)) }) }
             GVal::W16(x, _) => out.push(format!("{} W16:{:?}", head, x)),
             GVal::W32(x, _) | GVal::F32(x) => out.push(format!("{} W32:{:?}", head, x)),
